@@ -123,7 +123,7 @@ Print Assumptions portions_fold_topk.
    far, the bound next_from gives), each answer a legitimate top-`limit` selection of the rows visible to that statement.  Code 0 means: the
    run is a path of `reach`, the answer of Process is its last state, and (by 8) a top-`limit` selection of all matching traces. *)
 Theorem portions_run_is_reach : forall (c : loop_case) (n : N), loop_code c = (0%Z, n, 0%Z, 0%Z) ->
-  exists W f, reach (lc_all c) (part_of (lc_parts c)) (lc_k c) (lc_from0 c) n W f /\ map tid W = lc_final c
+  n = lc_portions c /\ exists W f, reach (lc_all c) (part_of (lc_parts c)) (lc_k c) (lc_from0 c) n W f /\ map tid W = lc_final c
               /\ topk (lc_k c) (U (lc_all c) (part_of (lc_parts c)) (lc_from0 c) n) W.
 Proof. exact loop_code_sound. Qed.
 Print Assumptions portions_run_is_reach.
